@@ -146,8 +146,4 @@ def classify(w):
             and str(d.get('frame', '')).split('(')[0] in ('PAYLOAD', 'ERROR', 'REQUEST_N', 'CANCEL'):
         # the library closes only one direction of a channel on ERROR / requester CANCEL
         return 'channel-direction-survives-termination'
-    if w.get('clause') == 'stream-does-not-begin-with-request' and d.get('lease_honouring_client') \
-            and str(d.get('frame', '')).split('(')[0] in ('REQUEST_N', 'CANCEL'):
-        # frames of a stream whose request is still retained in the lease queue are not held back
-        return 'lease-queued-request-overtaken'
     return None
